@@ -83,6 +83,28 @@ def run(tier, seed):
     v.assumptions += ["a frame is declared missing only after the producer finished and a 3 s grace period elapsed",
                       "a subscriber that lags more than the 16 384-slot broadcast channel is out of scope",
                       "one gated subscriber per run; frames beyond the scheduled prefix flow freely"]
+    # ---- a subscriber joins while the producer of ONE particular frame is parked inside its append: every frame kind of a
+    # tool run on a thread (message, run spawned, side effects, run ended) at cache.enter (numbered, on disk, not yet in
+    # the history a joiner reads) and log.flushed; every frame of a task (running, output, terminal status) at emit.numbered
+    jh = []
+    for k in range(1, 5):
+        jh.append({"id": f"jh-thread-enter-{k}", "kind": "thread", "point": "cache.enter", "seq": k})
+        jh.append({"id": f"jh-thread-flushed-{k}", "kind": "thread", "point": "log.flushed", "seq": k})
+    for k in (1, 2):
+        jh.append({"id": f"jh-task-true-{k}", "kind": "task", "point": "emit.numbered", "seq": k, "command": "true"})
+    for k in (1, 2, 3):
+        jh.append({"id": f"jh-task-echo-{k}", "kind": "task", "point": "emit.numbered", "seq": k, "command": "echo hi"})
+        jh.append({"id": f"jh-task-echo-rec-{k}", "kind": "task", "point": "emit.recorded", "seq": k, "command": "echo hi"})
+    for res in run_harness("join_hold", jh, wd, "jh", shards=min(8, len(jh)), timeout=900):
+        c = [x for x in jh if x["id"] == res["id"]][0]
+        if not res["held"]:
+            v.drift({"case": res["id"], "note": "the producer never reached the hold point"})
+            continue
+        v.add_eval({"join_hold": res["id"]}, True)
+        if res["delivered"] != res["log_seqs"]:
+            v.violation(f"{c['kind']} subscriber that joined while frame {c['seq']} was inside its append (producer parked at {c['point']}) got seqs {res['delivered']} "
+                        f"of {res['log_seqs']}" + (" and the server closed the stream" if res["stream_closed_by_server"] else ""),
+                        {"engine": "join_hold", "case": c})
     # the repository's own tests as drivers: every recorded execution against the monitor half of System.tla
     from .. import suite
     suite.check(v, wd)
@@ -97,6 +119,14 @@ def replay(path, seed):
     with open(path) as f:
         rep = json.load(f)
     case = rep["case"]
+    if case.get("engine") == "join_hold":
+        wd = workdir(PROP + "-replay")
+        res = run_harness("join_hold", [case["case"]], wd, "replay")[0]
+        print(json.dumps(res))
+        if res["held"] and res["delivered"] != res["log_seqs"]:
+            print(f"VIOLATION property={PROP} replay={path}")
+            return 1
+        return 0
     if case.get("engine") == "suite":
         from .. import suite
         return suite.replay(PROP, path, case)
